@@ -35,7 +35,7 @@ fn c24_offset_after_clears_the_range() {
         log_bytes_in_region: kani::any(),
     };
     // well-formed: 1..=64 bits per region, at most as many metadata bits as data bits, table no larger than the 2^47 address space
-    kani::assume(s.log_num_of_bits <= 6 && s.log_bytes_in_region + 3 >= s.log_num_of_bits && s.log_bytes_in_region + 3 - s.log_num_of_bits <= 47);
+    kani::assume(s.log_num_of_bits <= 6 && s.log_bytes_in_region <= 60 && s.log_bytes_in_region + 3 >= s.log_num_of_bits && s.log_bytes_in_region + 3 - s.log_num_of_bits <= 47);
     kani::assume(s.offset <= (1usize << 59));
     let size = hp::metadata_address_range_size(&s);
     // the table has one field of 2^log_num_of_bits bits per region of the 2^47-byte address space
